@@ -25,8 +25,8 @@ def rtOK : RT → Bool
   | .app c t => rtOK t && !(kindOf c == some .optional && isOptRT t)
   | _ => true
 
-/-- a doc line is one line -/
-def docOK (d : In) : Bool := !d.contains 10
+/-- a doc line is one line (no line break of either kind) -/
+def docOK (d : In) : Bool := !d.contains 10 && !d.contains 13
 
 def fieldDOK (f : FieldD) : Bool := fieldNameOK f.name && rtOK f.ty && f.docs.all docOK
 
@@ -78,17 +78,21 @@ theorem trimDoc_commentOK (d : In) (h : docOK d = true) : commentOK (trimDoc d) 
     have : b ∈ x := by rw [hs]; exact List.mem_append_left _ hb
     rw [← hx] at this
     exact mem_dropWhile this
-  have h10 : y.contains 10 = false := by
-    cases hc : y.contains 10 with
+  have hno : ∀ (e : UInt8), d.contains e = false → y.contains e = false := by
+    intro e he
+    cases hc : y.contains e with
     | false => rfl
     | true =>
       exfalso
-      have : (10 : UInt8) ∈ y := by simpa using hc
+      have : e ∈ y := by simpa using hc
       have := hmem _ this
-      simp [docOK] at h
-      exact h this
+      have hd : d.contains e = true := by simpa using this
+      rw [he] at hd; cases hd
+  simp only [docOK, Bool.and_eq_true, Bool.not_eq_true'] at h
+  have h10 := hno 10 h.1
+  have h13 := hno 13 h.2
   unfold commentOK
-  rw [h10]
+  rw [h10, h13]
   cases y with
   | nil => rfl
   | cons a t =>
